@@ -498,6 +498,13 @@ pub fn build(t: &Term, w: &W) -> O {
           "just" => observables::just(9),
           "empty" => observables::empty(),
           "error" => observables::error(err(payload(&e) + 1)),
+          // a replacement whose subscribe() itself takes 150 ms (virtual) before it returns; it emits 9 and completes from its own thread
+          "slow" => {
+            let mut t = Term::leaf("acold", 9);
+            t.b = 150;
+            t.scripts = vec![vec![Ev { k: "s".into(), v: 200 }, Ev { k: "n".into(), v: 9 }, Ev { k: "c".into(), v: 0 }]];
+            build(&t, &w)
+          }
           _ => build(&Term::leaf("probe", 2), &w),
         }
       })
